@@ -40,7 +40,7 @@ C = {
          "125 (denotation, spelling) items covering every construct of doc/Guide.adoc; all legal sequences of 1..2 items, 3 (thorough 4) over sub-alphabets, each with 0, 1 or 2 token-boundary deviations (blanks, tabs, newlines, comments incl. ones with syntax characters), message forms and the manual's examples verbatim: checker count == slots written, whole text consumed, scanned values == denotation bitwise, reprint scans identically.",
          "denotation known by construction; the manual's ambiguous forms are not generated (listed in the meta file)"),
  "C12": ("bfs", "explicit-state search over application states reached by parameter messages; per state save/parse/load oracle",
-         "Breadth-first search over all states of five macro-built applications (flat, preset, tree, synth, big) reachable by parameter messages up to a depth (2/4/4/6/1, thorough 3/5/5/7/2, plus several thousand prepared root states for large arrays, long strings and 290-character paths); in every state the savefile is produced, parsed line-wise by the harness and checked for minimality against defaults computed by the harness, loaded into a fresh instance and compared field by field; negative files (wrong header, other app, unparsable / unaccepted line at every position) must be rejected.",
+         "Breadth-first search over all states of six macro-built applications (flat, preset, tree, synth, big, intsw) reachable by parameter messages up to a depth (2/4/4/6/1/4, thorough 3/5/5/7/2/5, plus several thousand prepared root states for large arrays, long strings and 290-character paths); in every state the savefile is produced, parsed line-wise by the harness and checked for minimality against defaults computed by the harness, loaded into a fresh instance and compared field by field; negative files (wrong header, other app, unparsable / unaccepted line at every position) must be rejected.",
          "applications apps/save_apps.h follow the documented macro usage; expected defaults come from the app description, not from the library"),
  "C13": ("bfs", "explicit-state search over application states x exhaustive permutation of savefile lines",
          "For every state of C12's space, every permutation of the savefile's message lines (exhaustively up to 5 lines quick / 6 thorough; adjacent transpositions, rotations and reversal beyond - reported as not exhaustive) and every file with one depended-on line deleted is loaded; resulting state and reported count must equal those of the unpermuted file.",
